@@ -103,6 +103,9 @@ fn main() {
                 "C08" => props::c08::run(&ctx, &mut rep),
                 "C09" => props::c09::run(&ctx, &mut rep),
                 "C17" => props::c17::run(&ctx, &mut rep),
+                "C10" => props::c10::run(&ctx, &mut rep),
+                "C11" => props::c11::run(&ctx, &mut rep),
+                "C12" => props::c12::run(&ctx, &mut rep),
                 other => {
                     eprintln!("unknown property {other}");
                     std::process::exit(2);
